@@ -84,7 +84,11 @@ def _numeric_predicates(m, seed):
         ok_par = ok_par and a[0] == b[0] and a[1] == b[1] == 0.0 and a[2] == -b[2]
         ga, gb = np.asarray(earth.gravitation_ecef([lat, 20.0, alt])), np.asarray(earth.gravitation_ecef([-lat, 20.0, alt]))
         ok_par = ok_par and np.allclose(ga * [1, 1, -1], gb, rtol=1e-14, atol=1e-14)
-        ok_copy = ok_copy and abs(float(ni.gravity(lat, alt)) - float(earth.gravity(lat, alt))) <= 4e-15 * 10
+        try:
+            g_compiled = float(ni.gravity(lat, alt))          # a compiled function: its frames do not appear on a traceback
+        except Exception as e:
+            raise exc.LibraryRaised("_numba_integrate.gravity(%r, %r): %s: %s" % (lat, alt, type(e).__name__, e))
+        ok_copy = ok_copy and abs(g_compiled - float(earth.gravity(lat, alt))) <= 4e-15 * 10
     out.append(("parity_in_latitude", bool(ok_par), "radii, gravity, north Earth rate even; vertical Earth rate odd; gravitation mirrored"))
     out.append(("compiled_gravity_copy", bool(ok_copy), "the integrator's compiled gravity equals earth.gravity (4e-14)"))
     w = dict(frame=0.0, trip=0.0, deriv=0.0, first=0.0, curv=0.0, grav=0.0, rate=0.0, diff=0.0)
